@@ -9,6 +9,7 @@ Import ListNotations.
 Section Contents.
   Variables K V : Type.
   Variable cmp : K -> K -> comparison.
+  Variable use_succ : bool -> bool -> bool.
   Hypothesis cmp_eq : forall a b, cmp a b = Eq -> a = b.
   Hypothesis cmp_refl : forall a, cmp a a = Eq.
   Hypothesis cmp_anti : forall a b, cmp a b = CompOpp (cmp b a).
@@ -192,24 +193,64 @@ Section Contents.
     destruct Hc as [-> | ->]; [destruct nr|]; lists.
   Qed.
 
+  Lemma min_node_spec : forall t q, t <> E ->
+    exists c k v r q', min_node K V t q = (T c E k v r, q') /\ min_kv K V t = Some (k, v) /\
+                       (k, v) :: inorder r ++ pr q' = inorder t ++ pr q /\ pl q' = pl q.
+  Proof.
+    induction t as [|c l IHl k v r IHr]; intros q Hne; [congruence|].
+    destruct l as [|lc ll lk lv lr].
+    - exists c, k, v, r, q. simpl. repeat split; reflexivity.
+    - destruct (IHl (F K V DL c k v r :: q)) as (c' & k' & v' & r' & q' & H1 & H2 & H3 & H4); [congruence|].
+      exists c', k', v', r', q'.
+      change (min_node K V (T c (T lc ll lk lv lr) k v r) q) with (min_node K V (T lc ll lk lv lr) (F K V DL c k v r :: q)).
+      change (min_kv K V (T c (T lc ll lk lv lr) k v r)) with (min_kv K V (T lc ll lk lv lr)).
+      rewrite H1, H2. repeat split; auto.
+      rewrite H3. lists.
+  Qed.
+
+  Lemma rem_pred_inorder : forall xc xl xr p r, xl <> E ->
+    rem_pred K V xc xl xr p = Ok r -> inorder r = pl p ++ inorder xl ++ inorder xr ++ pr p.
+  Proof.
+    intros xc xl xr p r Hne H. unfold rem_pred in H.
+    destruct (max_node_spec xl [] Hne) as (c' & l' & k' & v' & q' & _ & H2 & _ & _).
+    rewrite H2 in H.
+    destruct (max_node_spec xl (F K V DL xc k' v' xr :: p) Hne)
+      as (c2 & l2 & k2 & v2 & q2 & G1 & G2 & G3 & G4).
+    rewrite H2 in G2. inversion G2; subst k2 v2.
+    rewrite G1 in H. apply rem_node_inorder in H; auto. rewrite H.
+    rewrite G4. cbn [pl pr] in *.
+    transitivity ((pl q2 ++ inorder l2 ++ [(k', v')]) ++ inorder xr ++ pr p).
+    { repeat (rewrite <- app_assoc; simpl). reflexivity. }
+    rewrite G3. repeat (rewrite <- app_assoc; simpl). reflexivity.
+  Qed.
+
+  Lemma rem_succ_inorder : forall xc xl xr p r, xr <> E ->
+    rem_succ K V xc xl xr p = Ok r -> inorder r = pl p ++ inorder xl ++ inorder xr ++ pr p.
+  Proof.
+    intros xc xl xr p r Hne H. unfold rem_succ in H.
+    destruct (min_node_spec xr [] Hne) as (c' & k' & v' & r' & q' & _ & H2 & _ & _).
+    rewrite H2 in H.
+    destruct (min_node_spec xr (F K V DR xc k' v' xl :: p) Hne)
+      as (c2 & k2 & v2 & r2 & q2 & G1 & G2 & G3 & G4).
+    rewrite H2 in G2. inversion G2; subst k2 v2.
+    rewrite G1 in H. apply rem_node_inorder in H; auto. rewrite H.
+    rewrite G4. cbn [pl pr] in *. simpl (inorder E ++ _).
+    repeat (rewrite <- app_assoc; simpl).
+    change ((k', v') :: inorder r2 ++ pr q2) with (((k', v') :: inorder r2 ++ pr q2)).
+    rewrite G3. reflexivity.
+  Qed.
+
   Lemma rem_at_inorder : forall xc xl xk xv xr p r,
-    rem_at K V (T xc xl xk xv xr) p = Ok r -> inorder r = pl p ++ inorder xl ++ inorder xr ++ pr p.
+    rem_at K V use_succ (T xc xl xk xv xr) p = Ok r -> inorder r = pl p ++ inorder xl ++ inorder xr ++ pr p.
   Proof.
     intros xc xl xk xv xr p r H. unfold rem_at in H.
     destruct xl as [|lc ll lk lv lr].
     - apply rem_node_inorder in H; auto.
     - destruct xr as [|rc rl rk rv rr].
-      + destruct (max_kv K V (T lc ll lk lv lr)) as [[? ?]|]; apply rem_node_inorder in H; auto.
-      + destruct (max_node_spec (T lc ll lk lv lr) []) as (c' & l' & k' & v' & q' & _ & H2 & _ & _); [congruence|].
-        rewrite H2 in H.
-        destruct (max_node_spec (T lc ll lk lv lr) (F K V DL xc k' v' (T rc rl rk rv rr) :: p))
-          as (c2 & l2 & k2 & v2 & q2 & G1 & G2 & G3 & G4); [congruence|].
-        rewrite H2 in G2. inversion G2; subst k2 v2.
-        rewrite G1 in H. apply rem_node_inorder in H; auto. rewrite H.
-        rewrite G4. cbn [pl pr] in *.
-        transitivity ((pl q2 ++ inorder l2 ++ [(k', v')]) ++ inorder (T rc rl rk rv rr) ++ pr p).
-        { repeat (rewrite <- app_assoc; simpl). reflexivity. }
-        rewrite G3. repeat (rewrite <- app_assoc; simpl). reflexivity.
+      + apply rem_node_inorder in H; auto.
+      + destruct (donor_is_succ K V use_succ _ _).
+        * apply rem_succ_inorder in H; auto; congruence.
+        * apply rem_pred_inorder in H; auto; congruence.
   Qed.
 
   (* ------------------------------------------------------------ order *)
@@ -420,7 +461,7 @@ Section Contents.
     | E => a_get (inorder t) k = None
     | T _ _ _ _ _ =>
         a_get (inorder t) k <> None /\
-        forall r, rem_at K V x p' = Ok r ->
+        forall r, rem_at K V use_succ x p' = Ok r ->
                   inorder r = a_rem (inorder t) k /\ length (inorder r) = pred (length (inorder t))
     end.
   Proof.
